@@ -219,7 +219,7 @@ func (sc *vC20Scenario) knownSize(n int) string {
 }
 
 func TestVerif_C20_reset(t *testing.T) {
-	vh.Run(t, vh.Spec{Prop: "C20", Unit: "reset", Quick: 700, Thorough: 25000, CostMs: 35, WallS: 120,
+	vh.Run(t, vh.Spec{Prop: "C20", Unit: "reset", Quick: 1200, Thorough: 25000, CostMs: 35, WallS: 120,
 		Rule:    "ResettableKeystore in shared and factory mode (prefixBits {0,8,16}, batchSize {1,2,3,7}, buffer cap {1,2,64}): sequential preparation (0-3 puts, optional clean restart, optional complete reset so that the live slot is 1), then ResetCids with 0-30 CIDs fed through an unbuffered channel and 0-6 concurrent Puts (1-3 keys) steered into: overlap with the start, phase A after the i-th CID, the gate at phase A's final sync, the gate at phase B's count, the gate inside phase C's checked drain (tail, drained by the worker before the swap), after the reset; end = completion, cancellation or Close at one of these positions. Oracle on the live keystore after the run, after a clean Close + reopen, and after a crash at EVERY write boundary of the whole journal under the prefix model and four subset-model survivor choices: contents = previous set + acknowledged puts, or new set + puts issued after the reset consumed its first CID (or reached a gate) and acknowledged (overlapping puts optional, unacknowledged puts optional), never a mixture; a reset that returned nil without cancel/Close in flight must be found replaced; Size = number of keys. Non-trivial = at least one put was acknowledged while the reset was in phase A, at a gate or in the tail; distinct by (config, end, phases, counts)",
 		Clauses: []string{"reset-live-contents", "reset-live-size", "crash-contents", "crash-size", "reset-returns"}},
 		func(c *vh.Case) {
@@ -546,7 +546,7 @@ func TestVerif_C20_reset(t *testing.T) {
 // ---- unit: concurrent (race build) -------------------------------------------------------------
 
 func TestVerifRace_C20_concurrent(t *testing.T) {
-	vh.Run(t, vh.Spec{Prop: "C20", Unit: "concurrent", Quick: 80, Thorough: 3000, CostMs: 30, WallS: 120,
+	vh.Run(t, vh.Spec{Prop: "C20", Unit: "concurrent", Quick: 120, Thorough: 3000, CostMs: 30, WallS: 120,
 		Rule:    "real-parallel under -race on the three keystore kinds: 3 writers put 10/10/6 keys in calls of 1-3 (writers 0 and 1 share half of their keys unless a reset runs), a churner puts and deletes private keys (only when no reset runs), 2 readers run Get/CountKeysUpTo/ContainsPrefix/Size; resettable kinds in 2 of 3 cases also run ResetCids (0-12 CIDs through an unbuffered channel) in the middle. Oracle: every Get result is duplicate-free, inside the universe and under the prefix; without reset every writer key is reported new by exactly one Put; final contents = writer keys + churner's last state (no reset) or new set + keys put after the reset consumed its first CID (keys put before that optional); Size = number of keys, also after clean restart; the race detector must stay silent. Non-trivial = readers saw >= 2 different non-empty Get results and (if a reset ran) puts were acknowledged both before and after it began; distinct by (config, counts)",
 		Clauses: []string{"conc-get-sound", "conc-final-contents", "conc-final-size", "conc-restart"}},
 		func(c *vh.Case) {
